@@ -624,8 +624,10 @@ class Run:
     def execute(self):
         rec, plan = self.rec, self.plan
         tw = self.tw
-        if tw.unsupported:
-            raise core.HarnessError(f"kernels the twin builder cannot model: {tw.unsupported}")
+        # kernels the twin builder cannot model (e.g. a scalar reduction inside prange, which numba itself makes
+        # race free) keep running as compiled code and are reported, never judged
+        for key in tw.unsupported:
+            rec.stat("unmodelled_kernel:" + key.rsplit(".", 1)[1])
         rec.stat("dispatchers_found", len(tw.found))
         with warnings.catch_warnings(), np.errstate(all="ignore"):
             warnings.simplefilter("ignore")
@@ -651,6 +653,9 @@ class Run:
         times = np.sort(rg.uniform(-1.0, 10.0, nt))
         k = plan["kernel"]
         key = KERNEL_KEYS[k]
+        if key not in self.tw.funcs:
+            self.rec.discarded = f"kernel {k} is not available / not modelled in this tree"
+            return
         entry = self.tw.entry(key)
         if k == "no_irf":
             entry(np.zeros((nt, nr)), rates, times)
